@@ -158,7 +158,9 @@ def c08_oracle(case, inputs, view):
             if f["q"] is None or f["parts"] is None:
                 continue
             cov = {x for pos, _ in _covered(f["parts"], n) for x in pos}
-            src[f["q"]] = {"f": f, "seq": inp["seq"], "inside": bool(cov) and cov <= retained, "elem": ei}
+            # a feature that denotes no nucleotide (start == end) lies neither inside nor across anything: the
+            # denotation clauses say nothing about it (the exact table is still compared with the model)
+            src[f["q"]] = {"f": f, "seq": inp["seq"], "inside": (cov <= retained) if cov else None, "elem": ei}
     seen = {}
     ids = [e["rec"]["id"] for e in case["elements"]]
     gen = generated_sources(view["features"], ids)
@@ -171,6 +173,8 @@ def c08_oracle(case, inputs, view):
             continue
         seen[lab] = seen.get(lab, 0) + 1
         s = src[lab]
+        if s["inside"] is None:
+            continue
         if not s["inside"]:
             V.append({"signature": "C08:truncated-or-shifted",
                       "what": "feature L%d %s overlaps a discarded region of element %d but appears in the product as %s"
